@@ -1437,6 +1437,9 @@ class ContactHandler(Messenger, dbus.service.Object):
         return str(self._add_queue_item(item))
 
     def _add_queue_item(self, item):
+        if self._in_term:
+            # it could never be started, and would keep the session from closing
+            raise RuntimeError('Cannot send a bundle in terminating state')
         if item.transfer_id is None:
             item.transfer_id = self.next_id()
 
